@@ -47,6 +47,38 @@ def _union_accesses(f, P):
     return out
 
 
+def _r1_paths(prog, f, P, load, obj):
+    """path-sensitive: on every path reaching `load`, do the path's facts entail <obj>len <= -1 ?"""
+    from ..frontend import AnalysisBroken
+    res = {"n": 0, "bad": None, "unk": None}
+    lenp = obj + "len"
+    try:
+        w = Walker(prog, f, view="signed")
+
+        def on_instr(w, st, i):
+            if i is not load:
+                return
+            res["n"] += 1
+            lv = st.mem.get(lenp)
+            if lv is None:
+                lv = w.atom_for(st, lenp, "i64")
+                st.mem[lenp] = lv
+            if not isinstance(lv, Lin):
+                res["unk"] = res["unk"] or "length field not a tracked integer on a path"
+                return
+            if not w.entails(st, lv + const(1)):
+                res["bad"] = res["bad"] or "path guards %s" % (st.prov[-6:],)
+        w.on_instr = on_instr
+        w.run(lambda w, st: None)
+    except AnalysisBroken as e:
+        return "undecided", str(e)[:80]
+    if res["bad"]:
+        return "refuted", res["bad"]
+    if res["unk"] or not res["n"]:
+        return "undecided", res["unk"] or "the read is on no enumerated path"
+    return "proven", "%d paths" % res["n"]
+
+
 def r1(chk, prog, m):
     rid = "C11.R1"
     chk.rule(rid, "the separately allocated block (pdata) is read or freed only where len < 0 is known; the inline bytes are "
@@ -74,10 +106,18 @@ def r1(chk, prog, m):
                     sig = "read of %spdata" % obj
                     if ok:
                         chk.proven(rid, f.name, sig, u.locstr(), "dominated by len < 0")
-                    else:
+                        continue
+                    # no single dominating test: decide path by path (the knowledge may sit in a flag or in an earlier state)
+                    verdict, why = _r1_paths(prog, f, P, u, obj)
+                    if verdict == "proven":
+                        chk.proven(rid, f.name, sig, u.locstr(), "len < 0 holds on every path that reaches the read (%s)" % why)
+                    elif verdict == "refuted":
                         chk.refuted(rid, f.name, sig, u.locstr(),
-                                    "the storage union is read as a pointer without a dominating test that len < 0: for an inline string "
-                                    "the first bytes of the text would be used (or freed) as a pointer", {"load": u.raw})
+                                    "the storage union is read as a pointer on a path where len < 0 is not established (%s): for an inline "
+                                    "string the first bytes of the text would be used (or freed) as a pointer" % why, {"load": u.raw})
+                    else:
+                        chk.undecided(rid, f.name, sig, u.locstr(), "no dominating test that len < 0 and the path-by-path analysis could "
+                                      "not follow the length field (%s)" % why)
     chk.floor(rid, n, 4, "reads of the separately allocated block")
 
 
@@ -136,6 +176,7 @@ def r_set(chk, prog, m):
     chk.touched(f)
     jn, sn, ln = f.params[0][1], f.params[1][1], f.params[2][1]
     R = {"C11.R3": [0, []], "C11.R4": [0, []], "C11.R5": [0, []]}
+    UND = {"C11.R3": [], "C11.R4": [], "C11.R5": []}
     LENP = jn + "->len"
     UNIP = jn + "->c_string"
 
@@ -193,13 +234,13 @@ def r_set(chk, prog, m):
                 dst = Ptr("new", const(0))
                 st.cap.setdefault("new", None)
             if not isinstance(dst, Ptr) or not isinstance(n, Lin):
-                R["C11.R5"][1].append((i, "%s destination not resolved" % what))
+                UND["C11.R5"].append((i, "%s destination not resolved" % what))
                 return
             cap = st.cap.get(dst.base)
             if dst.base.startswith("malloc#") or dst.base == "new":
                 cap = st.cap.get(dst.base)
             if cap is None:
-                R["C11.R5"][1].append((i, "%s into a block of unknown capacity (%s)" % (what, dst.base)))
+                UND["C11.R5"].append((i, "%s into a block of unknown capacity (%s)" % (what, dst.base)))
                 return
             if not (w.entails(st, dst.off.scale(-1)) and w.entails(st, dst.off + n - cap)):
                 R["C11.R5"][1].append((i, "%s of %r byte(s) at offset %r can exceed the destination's %r bytes (path guards %s)"
@@ -225,6 +266,11 @@ def r_set(chk, prog, m):
             R["C11.R3"][0] += 1
             final_len = st.mem.get(LENP)
             uni = st.mem.get(UNIP)
+            if not isinstance(final_len, Lin) or any("#" in a for a in final_len.atoms()):
+                # the stored length went through memory the model does not follow (e.g. an out-parameter of an inlined helper)
+                UND["C11.R3"].append((i, "the length stored on this path is not a tracked value (%r)" % (final_len,)))
+                UND["C11.R5"].append((i, "the length stored on this path is not a tracked value (%r)" % (final_len,)))
+                return
             replaced = not (isinstance(uni, Ptr) and uni.base == "pdata0")
             old_frees = [e for e in frees if isinstance(e[1], Ptr) and e[1].base == "pdata0"]
             other_frees = [e for e in frees if e not in old_frees]
@@ -233,7 +279,10 @@ def r_set(chk, prog, m):
                 want = 0 if keeps_old else 1
             else:
                 want = 0
-            if len(old_frees) != want or other_frees:
+            unresolved = [e for e in frees if not isinstance(e[1], Ptr)]
+            if unresolved and len(old_frees) != want:
+                UND["C11.R3"].append((i, "a free() on this path has an argument the model does not resolve (%r)" % (unresolved[0][1],)))
+            elif len(old_frees) != want or other_frees:
                 R["C11.R3"][1].append((i, "on a successful path starting with %s storage the old block is freed %d time(s) (expected %d)%s"
                                        % ("separate" if entry_neg else "inline", len(old_frees), want,
                                           "; also frees %s" % other_frees[0][1] if other_frees else "")))
@@ -271,6 +320,9 @@ def r_set(chk, prog, m):
         if bad:
             i, msg = bad[0]
             chk.refuted(rid, f.name, rid, i.locstr(), msg)
+        elif UND[rid]:
+            i, msg = UND[rid][0]
+            chk.undecided(rid, f.name, rid, i.locstr(), msg)
         else:
             chk.proven(rid, f.name, rid, f.entry.term.locstr(), "%d path obligations discharged" % n)
     chk.floor("C11.R4", R["C11.R4"][0], 3, "failing return paths of the set operation")
